@@ -7,8 +7,10 @@ use rdest::Metainfo;
 use serde_json::{json, Value};
 
 /// Values that may sit next to `info` in the top-level dictionary.
-const V_SHAPES: [(&str, &[u8]); 5] = [
+const V_SHAPES: [(&str, &[u8]); 7] = [
     ("int", b"i7e"),
+    ("the-string-info", b"4:info"),
+    ("the-string-info-zero-padded-length", b"04:info"),
     ("str-spelled-4:info", b"6:4:info"),
     ("list-with-dict-with-info", b"ld4:infoi1eee"),
     ("dict-with-info", b"d4:infoi1ee"),
@@ -275,8 +277,8 @@ pub fn run(ctx: &Ctx) -> Outcome {
     let mut docs = documents(true);
     docs.extend(duplicate_info_documents());
     let without = documents(false);
-    // documents without announce must be rejected; a thinned family is enough to count them
-    docs.extend(without.into_iter().step_by(ctx.tier.pick(50, 5)));
+    // documents without announce must be rejected
+    docs.extend(without);
     let results = core::par_map(&docs, |_| core::set_quiet_panics(true), |_, _, d| check_doc(&d.bytes));
     let mut accepted = 0u64;
     let mut rejected = 0u64;
@@ -295,7 +297,7 @@ pub fn run(ctx: &Ctx) -> Outcome {
     o.set("distinct_nontrivial", json!(accepted));
     o.set("accepted", json!(accepted));
     o.set("rejected", json!(rejected));
-    o.set("rule", json!("documents = one top-level dictionary {announce, any subset of the keys a/comment/infoo/z each with one of 5 value shapes (3 of them contain a nested key spelled info), info} in 4 key orders (sorted, reversed, info first, info last) x 6 info dictionaries (canonical, reversed keys, extra keys incl. a nested info key, leading-zero string lengths, multi-file, info key inside info) x info key spelled 4:info or 04:info x 4 trailers after the dictionary x (for one sibling-shape combination per key subset) 6 leaders in front of it: nothing, non-dictionary values, decoy dictionaries without announce but with a top-level info key; plus a thinned family without announce (must be rejected); plus documents with the info key twice (6x6 info values, 3 separators, both orders). All documents are distinct byte strings; non-trivial = accepted by Metainfo::from_bencode, for which the hash is compared."));
+    o.set("rule", json!("documents = one top-level dictionary {announce, any subset of the keys a/comment/infoo/z each with one of 7 value shapes (the string info itself in two length spellings, a string spelled 4:info, 3 containers with a nested key spelled info), info} in 4 key orders (sorted, reversed, info first, info last) x 6 info dictionaries (canonical, reversed keys, extra keys incl. a nested info key, leading-zero string lengths, multi-file, info key inside info) x info key spelled 4:info or 04:info x 4 trailers after the dictionary x (for one sibling-shape combination per key subset) 6 leaders in front of it: nothing, non-dictionary values, decoy dictionaries without announce but with a top-level info key; plus the same family without announce (every one must be rejected); plus documents with the info key twice (6x6 info values, 3 separators, both orders). All documents are distinct byte strings; non-trivial = accepted by Metainfo::from_bencode, for which the hash is compared."));
     if (accepted as f64) < 0.4 * docs.len() as f64 {
         ctx.machinery_error(format!("vacuity: only {} of {} documents accepted", accepted, docs.len()));
     }
